@@ -12,7 +12,7 @@ from pjrpc.common.exceptions import BaseError, DeserializationError, IdentityErr
 from mc.core import explore_choices
 from mc.harness import clientrun as cr
 
-END_OUTCOMES = {'ok', 'ok_empty', 'notif_reply_listed', 'code_listed', 'code_listed2', 'code_unlisted', 'level_listed', 'level_listed2', 'level_unlisted'}
+END_OUTCOMES = {'ok', 'ok_empty', 'notif_reply_listed', 'elem_error', 'code_listed', 'code_listed2', 'code_unlisted', 'level_listed', 'level_listed2', 'level_unlisted'}
 
 
 def gen_cases(ctx):
